@@ -13,7 +13,6 @@ labelled streams (`gen_finding`), one known defect shape each:
                  field), nested-leaf (struct port with a nested-struct / list field in output direction), struct-wire (struct
                  wire written by field and read whole or vice versa), comp-array (list of sub-components with a struct input)
    F17 (verilog) for loop with a negative step that does not land on the bound (unsigned loop variable wraps)
-   F7  (both)    two component classes with the same name and different bodies
 regression streams (`gen_fixed`): the shapes of defects repaired by fix: commits (F15, F16, F16b, F18, F19); expected clean.
 """
 import math
@@ -421,6 +420,17 @@ class DesignGen:
     if c.kb: scope.refs.append(c.kb)
     if c.fb: scope.refs.append(c.fb)
     for s in c.ins: add_readable(scope, s.path, s.T, s.n)
+    sel = next((s for s in c.ins if s.name == 'sel'), None)
+    wide = [s for s in c.ins if s.T[0] == 'b' and s.n is None and s.T[1] >= 8 and s.path == 's.' + s.name]
+    if sel is not None and wide and rng.random() < 0.5:
+      v = rng.choice(wide)
+      iw = clog2(v.T[1])
+      if sel.T[1] < iw:
+        c.decl.append(f'    s.pb = Wire( Bits{iw} )')
+        nm = self.blk_name(c, 'up')
+        c.lines += ['    @update', f'    def {nm}():', f'      s.pb @= zext( s.sel, {iw} )']
+        r = Ref('s.pb', iw, 'sig'); r.maxval = (1 << sel.T[1]) - 1
+        scope.refs.append(r); self.features.add('part-select-base')
     # registers: some wires / outs are flip-flops (available from the start)
     drivable = [s for s in c.outs + c.wires]
     regs = []
@@ -496,6 +506,12 @@ class DesignGen:
           c.lines.append(f'    {s.path} //= {rng.choice(cands)}'); self.features.add('connect-struct'); return
       self.render_comb_target(c, scope, self.new_block(c), s); return
     w = s.T[1]
+    r = rng.random()
+    if r < 0.22:
+      eg = ExprGen(rng, scope.copy(), self.opts)
+      txt = eg.nc(w, 2)[0]
+      if 's.' in txt:          # a lambda that does not mention the component has no closure to find `s` in
+        c.lines.append(f'    {s.path} //= lambda: {txt}'); self.features.add('lambda'); return
     r = rng.random()
     same = [x for x in scope.refs if x.w == w and x.kind in ('sig', 'elem') and x.sliceable]
     wider = [x for x in scope.refs if x.w > w and x.kind in ('sig', 'elem') and x.sliceable]
@@ -714,7 +730,6 @@ FINDING_STREAMS = {
   # id -> (backends, expected violation kinds)
   F10: (('yosys',), ('multi-driver', 'undriven', 'output-mismatch')),
   F17: (('verilog',), ('loop-overrun', 'output-mismatch')),
-  F7: (('verilog', 'yosys'), ('output-mismatch',)),
 }
 FIXED_STREAMS = {
   # shapes of repaired defects: ordinary clean cases now
